@@ -444,11 +444,18 @@ class TextXVisitor(RRELVisitor):
 
             assert isinstance(rule, ParsingExpression), f"{type(rule)}:{str(rule)}"
 
-            # Recurse into subrules, and resolve rules.
-            for idx, child in enumerate(rule.nodes):
-                if child not in resolved_rules:
-                    child = _resolve_rule(child)
-                    rule.nodes[idx] = child
+            # Recurse into subrules, and resolve rules. A chain of rule
+            # references ends here: references met below may lead back to
+            # the rules being resolved (recursive rules).
+            chain = set(resolving_names)
+            resolving_names.clear()
+            try:
+                for idx, child in enumerate(rule.nodes):
+                    if child not in resolved_rules:
+                        child = _resolve_rule(child)
+                        rule.nodes[idx] = child
+            finally:
+                resolving_names.update(chain)
 
             return rule
 
